@@ -785,7 +785,7 @@ theorem valOK_metaCtx : ValOK L metaCtx := by
   subst hkv
   exact ValOK.str _
 
-theorem executeTplUnbuffered_succ {n : Nat} (hg : EnvOK L g) (ih : AllSat T cfg g L n) (ti : Nat) (ctx : Env) (hc : EnvOK L ctx) :
+theorem executeTplUnbuffered_succ {n : Nat} (hae : cfg.autoescape = true) (hg : EnvOK L g) (ih : AllSat T cfg g L n) (ti : Nat) (ctx : Env) (hc : EnvOK L ctx) :
     Sat L (fun _ => True) (executeTplUnbuffered T cfg g (n + 1) ti ctx) := by
   rw [executeTplUnbuffered]
   refine sat_bind sat_get fun st hst => ?_
@@ -800,7 +800,7 @@ theorem executeTplUnbuffered_succ {n : Nat} (hg : EnvOK L g) (ih : AllSat T cfg 
         sat_modify fun s hs => ⟨hs.hout, hs.hframes, hs.hworld, hsaved.hchanged⟩
       refine sat_tryCatch ?_ ?_
       · refine sat_bind (sat_withFrame (fr := _) ?_ (ih.execNodes _ (hst.hworld.1 _).1)) fun _ _ => hrestore
-        refine ⟨?_, envOK_update hg hc, rfl⟩
+        refine ⟨?_, envOK_update hg hc, hae⟩
         intro kv hkv
         simp only [List.mem_cons, List.not_mem_nil, or_false] at hkv
         subst hkv
@@ -1158,7 +1158,7 @@ theorem allSat_succ (hS : SetupOK T cfg L) (hg : EnvOK L g) (n : Nat) (ih : AllS
   evalPairs := evalPairs_succ ih
   firstof := firstof_succ ih
   executeTpl := executeTpl_succ ih
-  executeTplUnbuffered := executeTplUnbuffered_succ hg ih
+  executeTplUnbuffered := executeTplUnbuffered_succ hS.autoescape hg ih
   execNodes := execNodes_succ ih
   execNode := execNode_succ hS ih
   ifChain := ifChain_succ ih
